@@ -45,6 +45,7 @@ def run(ctx):
     check_accessors(ctx)
     from .. import rules_base as RB
     ctx.rule('R3.B', 'base model: token-type containment, token flags, Token.match, imt and the navigation helpers behave as the rules assume (source interpreted on a finite matrix)', floor=1)
+    check_statement_construction(ctx)
     from .. import rules_lexer as RL
     ctx.rule('R3.7', 'the leaves are the lexer tokens of the whole statement text: the input is scanned in one piece (streams read completely first)', floor=3)
     RL.check_whole_text(ctx, 'R3.7')
@@ -458,3 +459,28 @@ def check_accessors(ctx):
             else:
                 ctx.ob('R3.6', f'accessor:{m.short}', f'{m.mod.relpath}:{m.node.lineno}', f'{m.short} is read-only (transitively, {len(reach)} functions)', True)
     ctx.need(n >= 40, f'only {n} accessor methods found in sql.py')
+
+
+def check_statement_construction(ctx):
+    """Parent links and the cached text of a Statement are set by its constructor from the token list it is given.  The splitter must
+    therefore build each Statement from its complete token list and not touch it afterwards: a token put into `stmt.tokens` later
+    has no parent and is missing from the cached value."""
+    from ..fx import effects_of
+    from ..cg import get_cg
+    repo = ctx.repo
+    cg = get_cg(ctx)
+    ctx.rule('R3.8', 'the splitter builds every Statement from its complete token list and does not mutate it afterwards', floor=1)
+    n = 0
+    for f in repo.funcs.values():
+        if f.mod.name not in ('sqlparse.engine.statement_splitter', 'sqlparse.engine.filter_stack', 'sqlparse'):
+            continue
+        for e in effects_of(f, cg):
+            if e.kind in ('list-mut', 'tokens-rebind') and e.recv is not None and not e.recv.startswith('self') and (e.recv.endswith('.tokens') or e.kind == 'tokens-rebind'):
+                n += 1
+                ctx.ob('R3.8', f'{f.short}:{e.detail[:50]}', e.loc, 'no token list of a constructed statement is changed outside sql.py', False,
+                       f'`{e.detail}` in {f.short}: tokens added to (or removed from) a Statement after it was built have parent None and are missing from '
+                       'its cached value, so is_child_of / has_ancestor / within and `stmt.value` disagree with the tree')
+            if e.kind == 'attr-store' and e.attr in ('value', 'parent', 'normalized') and e.recv is not None and not e.recv.startswith('self'):
+                n += 1
+                ctx.ob('R3.8', f'{f.short}:{e.detail[:50]}', e.loc, 'the splitter / filter stack does not patch token attributes', False, f'`{e.detail}` in {f.short}')
+    ctx.ob('R3.8', 'inventory', 'sqlparse/engine/statement_splitter.py', f'{n} mutation(s) of constructed statements in the splitter / filter stack / entry points', True)
